@@ -25,6 +25,7 @@ H32Stable == {b \o x : b \in H32StableBase, x \in Suffixes}
 \* write members in that order.
 AliasBoundaryAtMember == {b \o x : b \in {"IntroduceAlias", "ExtractVariantAlias", "WrapGenericIdentity", "ObjectToInterface", "InlineAlias"},
                                    x \in {"@member", "@member@decl"}}
+                         \cup {"RenameAlias@member"}    \* reference members are ordered by their names
 RuleSet(r) == {r.rules[i] : i \in DOMAIN r.rules}
 \* the part of the vector before "|" is default mode, after it strict mode
 Half(v, which) == LET n == (Len(v) - 1) \div 2 IN IF which = 1 THEN SubSeq(v, 1, n) ELSE SubSeq(v, n + 2, Len(v))
